@@ -12,7 +12,7 @@ trap 'git -C /repo worktree remove --force $wt/repo >/dev/null 2>&1; rm -rf $wt 
 cp /verif/known_findings.txt $out/ 2>/dev/null
 fired=""; detail=""
 for p in $props; do
-  o=$(FIREFLY_REPO=$wt/repo VERIF_ROOT=$out /verif/bin/fireflycheck -property $p -tier quick 2>&1); rc=$?
+  o=$(FIREFLY_REPO=$wt/repo VERIF_ROOT=$out ${FFC_BIN:-/verif/bin/fireflycheck} -property $p -tier quick 2>&1); rc=$?
   if [ $rc -ne 0 ]; then fired="$fired $p"; detail="$detail
 $(echo "$o" | grep -E '^(VIOLATION:|UNDECIDED:|ANCHOR-UNRESOLVED:|fireflycheck:)' | cut -c1-300 | head -4)"; fi
 done
